@@ -56,10 +56,14 @@ type BucketSet struct {
 	MaxBuckets int
 
 	mLck sync.Mutex
-	m    map[string]*struct {
-		r       L
-		lastUse time.Time
-	}
+	m    map[string]*bucket
+}
+
+type bucket struct {
+	r       L
+	lastUse time.Time
+	// Amount of Take calls that are waiting for or hold a permit of r.
+	holders int
 }
 
 func NewBucketSet(new_ func() L, reapInterval time.Duration, maxBuckets int) *BucketSet {
@@ -67,10 +71,7 @@ func NewBucketSet(new_ func() L, reapInterval time.Duration, maxBuckets int) *Bu
 		New:          new_,
 		ReapInterval: reapInterval,
 		MaxBuckets:   maxBuckets,
-		m: map[string]*struct {
-			r       L
-			lastUse time.Time
-		}{},
+		m:            map[string]*bucket{},
 	}
 }
 
@@ -83,7 +84,7 @@ func (r *BucketSet) Close() {
 	}
 }
 
-func (r *BucketSet) take(key string) L {
+func (r *BucketSet) take(key string) *bucket {
 	r.mLck.Lock()
 	defer r.mLck.Unlock()
 
@@ -91,7 +92,10 @@ func (r *BucketSet) take(key string) L {
 		now := time.Now()
 		// Attempt to get rid of stale buckets.
 		for k, v := range r.m {
-			if now.Sub(v.lastUse) > r.ReapInterval {
+			// Buckets with a permit taken (or waited for) stay: a new bucket
+			// for the same key would admit more than the limit and the
+			// Release calls of the current holders would reach it.
+			if v.holders == 0 && now.Sub(v.lastUse) > r.ReapInterval {
 				// Drop the bucket, if there happen to be any waiting Take for it.
 				// It will return 'false', but this is fine for us since this
 				// whole 'reaping' process will run only when we are under a
@@ -108,20 +112,26 @@ func (r *BucketSet) take(key string) L {
 		}
 	}
 
-	bucket, ok := r.m[key]
+	b, ok := r.m[key]
 	if !ok {
-		r.m[key] = &struct {
-			r       L
-			lastUse time.Time
-		}{
+		b = &bucket{
 			r:       r.New(),
 			lastUse: time.Now(),
 		}
-		bucket = r.m[key]
+		r.m[key] = b
 	}
-	r.m[key].lastUse = time.Now()
+	b.lastUse = time.Now()
+	b.holders++
 
-	return bucket.r
+	return b
+}
+
+// untake reverts the bookkeeping of take for a permit that was not granted.
+func (r *BucketSet) untake(b *bucket) {
+	r.mLck.Lock()
+	defer r.mLck.Unlock()
+
+	b.holders--
 }
 
 func (r *BucketSet) Take(key string) bool {
@@ -129,11 +139,15 @@ func (r *BucketSet) Take(key string) bool {
 		return true
 	}
 
-	bucket := r.take(key)
-	if bucket == nil {
+	b := r.take(key)
+	if b == nil {
 		return false
 	}
-	return bucket.Take()
+	if !b.r.Take() {
+		r.untake(b)
+		return false
+	}
+	return true
 }
 
 func (r *BucketSet) Release(key string) {
@@ -144,11 +158,14 @@ func (r *BucketSet) Release(key string) {
 	r.mLck.Lock()
 	defer r.mLck.Unlock()
 
-	bucket, ok := r.m[key]
+	b, ok := r.m[key]
 	if !ok {
 		return
 	}
-	bucket.r.Release()
+	b.r.Release()
+	if b.holders > 0 {
+		b.holders--
+	}
 }
 
 func (r *BucketSet) TakeContext(ctx context.Context, key string) error {
@@ -156,9 +173,13 @@ func (r *BucketSet) TakeContext(ctx context.Context, key string) error {
 		return nil
 	}
 
-	bucket := r.take(key)
-	if bucket == nil {
+	b := r.take(key)
+	if b == nil {
 		return ErrTooManyBuckets
 	}
-	return bucket.TakeContext(ctx)
+	if err := b.r.TakeContext(ctx); err != nil {
+		r.untake(b)
+		return err
+	}
+	return nil
 }
